@@ -72,6 +72,26 @@ CLAIMED = {
             "For each sampled sequence of 1-3 saves (session contents and sizes from the seed) the check enumerates EVERY syscall boundary of the saves, six torn-write prefixes for write syscalls, a process-crash model and seven power-loss survival patterns (including 'rename survived, data did not'), restarts from what is durable and requires Loader.Load to return exactly the previous or the new session (any complete earlier session under power loss). Exhaustive over crash points of each sampled history; histories are sampled.",
             "Trusted: simos models the syscalls the storage performs (open/write/fsync/rename/close) and their durability like a journalling POSIX file system (fsync makes data and the file's own creation durable; renames need a directory fsync); the instrumenter's os->simos import swap in session/storage_file.go.",
             "DESIGN.md §6 C31"),
+    "C32": ("transfer", "exploration",
+            "deterministic simulation of the real uploader against a recording fake upload RPC (true/false/flood-wait/fatal answers, latency) with 1-8 worker tasks and a short-reading source; part-multiset and descriptor oracle",
+            "Seeded search over file sizes at the part/10 MiB/3999-part boundaries, explicit valid and invalid part sizes, automatic sizing, known/unknown totals, thread counts, refusal/flood/fatal patterns and worker interleavings; on success the accepted part numbers must be exactly 0..n-1 once each, every request must carry the source bytes of its part, and the descriptor must state n, the small/big kind and the MD5.",
+            "Trusted: the synthetic source f(seed, offset); limits 10 MiB / 3999 / 512 KiB are taken from the upload documentation, not from the implementation.",
+            "DESIGN.md §6 C32"),
+    "C33": ("transfer", "exploration",
+            "deterministic simulation of plain streaming and parallel downloads against a fake upload.getFile (flood waits, retryable timeouts, fatal errors, latency) with 1-8 worker tasks; interval-coverage oracle on the writer",
+            "Seeded search over sizes at part boundaries, part sizes, thread counts, fault patterns and worker interleavings; a completed download must have written exactly the file's bytes, every byte once (no gap, no overlap), with the served file type.",
+            "Trusted: synthetic file; recording io.Writer/io.WriterAt.",
+            "DESIGN.md §6 C33"),
+    "C34": ("transfer", "exploration",
+            "deterministic simulation of hash-verified and CDN downloads against an adversarial peer (corrupt/truncate/extend/reorder bytes, re-upload, token invalidation) with an independently implemented AES-CTR CDN; completion-implies-genuine oracle and request-window monitor",
+            "Seeded search over verification modes (master+verify, CDN inline, CDN+verify), window partitions, corruption placement and kind, CDN control events, faults and interleavings; a download that returns nil must equal the genuine file and every upload.getCdnFile request must satisfy the documented alignment constraints.",
+            "Trusted: the harness's own AES-CTR (block cipher + manual big-endian counter, counter = iv with last 4 bytes = offset/16) and SHA-256 windows; CDN constraints from the CDN documentation.",
+            "DESIGN.md §6 C34"),
+    "C40": ("transfer", "exploration",
+            "deterministic simulation in simulated time: every FLOOD_WAIT_n / FLOOD_PREMIUM_WAIT_n answered by the fake servers obliges the next attempt of that call to start no earlier than n+1 s later; parsing is checked only on the injected errors",
+            "Timing clause decided by simulation across uploads and downloads (flood waits of 0-3 s, both kinds, interleaved with refusals and timeouts); the parsing clause is input sampling riding on the simulation (declared as such): each injected error must parse to its type and argument.",
+            "Trusted: bubble clock; only errors the fault injector generates are parsed (no claim for arbitrary error strings).",
+            "DESIGN.md §6 C40"),
     "C42": ("dial", "exploration",
             "deterministic simulation of the real dcs.Plain dial race over a scripted simulated dialer; quiescence oracle on established connections",
             "Seeded search over per-address dial outcomes (success, failure, hang, success after cancellation, reset before handshake), latencies, caller cancellation/deadline and goroutine interleavings; at quiescence exactly the returned connection is open (or none on error), and an all-fail error combines every cause.",
